@@ -20,14 +20,14 @@ import (
 // ---------------------------------------------------------------- trees
 
 type node struct {
-	kind     string // all any not bool src dst tos dscp proto srcport dstport cls
-	kids     []*node
-	b        bool
-	ip       uint32
-	plen     int
-	v        uint64 // tos / dscp / proto / cls
-	lo, hi   uint16
-	clsText  string
+	kind    string // all any not bool src dst tos dscp proto srcport dstport cls
+	kids    []*node
+	b       bool
+	ip      uint32
+	plen    int
+	v       uint64 // tos / dscp / proto / cls
+	lo, hi  uint16
+	clsText string
 }
 
 var printableProtos = []uint64{2, 6, 17, 27, 47, 50, 51, 59, 89, 97, 112, 132, 136, 137}
